@@ -7,6 +7,7 @@ import json
 import z3
 from values import *
 from harnesses.hlib import *
+from harnesses.c14 import mk_enum
 from models_core import ListIter
 from models_iter import MapI
 
@@ -33,6 +34,7 @@ ASSUMPTIONS = ['PipelineIterator::pipe modelled as a sequential order-preserving
                'tensorized() as pairing each batch with an opaque tensor (C17)', 'std adaptors enumerate / take / skip / step_by / filter_map '
                'modelled by their documented semantics', 'rand: every stream; seeding tracked symbolically']
 KNOWN_MATCHERS = {}
+SWITCH_PROBS = {2: [0.25, 0.75], 3: [0.5, 0.25, 0.25]}
 STRATS = ['Sequential', 'Interleaved', 'Weighted']
 LT = ['BatchSize', 'PaddedItemSize']
 
@@ -55,6 +57,9 @@ def shapes(tier):
                     out.append({'part': 'loader', 'lengths': ln, 'strategy': st, 'mode': 'world', 'world': w, 'batch_limit': 2})
     for k in (2, 3):
         out.append({'part': 'switch', 'fns': k})
+    for kind in ('CharSubstring', 'ByteSubstring'):
+        for text in (['ab c', 'ab c'], ['a bc', 'abc'], ['ab', 'a b']) if tier == 'quick' else (['ab c', 'ab c'], ['a bc', 'abc'], ['ab', 'a b'], ['ab cd', 'abcd'], ['a', 'a']):
+            out.append({'part': 'substring', 'kind': kind, 'input': text[0], 'target': text[1]})
     out.sort(key=lambda s: -(sum(s.get('lengths', [0])) * (s.get('world', 1) + 1)))
     return out
 
@@ -95,6 +100,7 @@ def setup_machine(machine, shape, opts):
     machine.stubs['ItemSize::size'] = lambda ctx, args, ck: Int(1, 'usize')
     machine.c08_lengths = []
     machine.c08_log = []
+    machine.rng_replay_streams = True
 
 
 def _u65(x):
@@ -105,6 +111,8 @@ def _u65(x):
 def run(ctx, shape, opts):
     if shape['part'] == 'switch':
         return run_switch(ctx, shape, opts)
+    if shape['part'] == 'substring':
+        return run_substring(ctx, shape, opts)
     m = ctx.m
     lengths = shape['lengths']
     n = sum(lengths)
@@ -138,7 +146,6 @@ def run(ctx, shape, opts):
         ctx.assume(z3.ULT(e65, lim))
     elif not seed0.v + epoch.v + n < (1 << 64):
         raise Infeasible()
-    base_seed = m.int_binop('Add', seed0, Int(epoch.v, 'u64') if isinstance(epoch.v, int) else Int(epoch.v, 'u64'))
 
     def pipeline(c, arg):
         data, info = arg.fields
@@ -147,9 +154,8 @@ def run(ctx, shape, opts):
                                                [VecObj([Int(1, 'u32')]), Int(0, 'u32'), VecObj([Int(0, 'i32')])])], ['data', 'input'])
         return Ok(item)
 
-    all_streams = []
-    G0 = None
-    for rank, world in streams:
+    def one_stream(rank, world, skip_, ff_, limit_):
+        """runs init_iter for one configuration and drains the stream"""
         m.c08_log = []
         m.c08_seen = []
         ctx.unseeded_draws = 0
@@ -157,12 +163,13 @@ def run(ctx, shape, opts):
         loader = Struct('TrainLoader', [
             ArcObj(PyFn(pipeline, 'pipeline')), VecObj([m.new_string('f%d' % i) for i in range(len(lengths))]),
             Enum('GenerationStrategy', st, STRATS.index(st), []), threads, buffer, Int(shape['batch_limit'], 'usize'),
-            Enum('BatchLimitType', 'BatchSize', 0, []), ArcObj(Opaque('AtomicUsize')), epoch, ff, limit, skip, rank, world,
+            Enum('BatchLimitType', 'BatchSize', 0, []), ArcObj(Opaque('AtomicUsize')), epoch, ff_, limit_, skip_, rank, world,
             Some(seed_in) if seed_in is not None else NONE(), False, Int(1, 'usize'), False, NONE(), NONE()])
-        r = m.call('init_iter', ref_to(loader)) if False else m.call('TrainLoader::init_iter', ref_to(loader))
+        r = m.call('TrainLoader::init_iter', ref_to(loader))
         ctx.require(r.variant == 'Ok', 'init_iter succeeds')
         it = loader.fields[19]
         ctx.require(it.variant == 'Some', 'init_iter installs the iterator')
+        ctx.require(loader.fields[18].variant == 'Some', 'min_items is set by __iter__')
         it = m.peel(it.fields[0])
         while isinstance(it, (ArcObj, BoxObj)) or (isinstance(it, Struct) and it.ty == 'Mutex'):
             it = m.peel(it.fields[0])
@@ -175,11 +182,29 @@ def run(ctx, shape, opts):
             batches.append([m.peel(x).get('data').get('input').as_str().concrete() for x in batch.items])
         else:
             ctx.fail('the stream terminates')
+        return {'batches': batches, 'G': list(m.c08_log), 'seen': list(m.c08_seen), 'unseeded': ctx.unseeded_draws,
+                'seed_terms': list(ctx.rng_seed_terms)}
+
+    # reference: the uninterrupted single-process stream (rank 0 of 1, no skip / limit / fast-forward) with the same
+    # files, strategy, seed and epoch
+    zero, maxu = Int(0, 'usize'), Int((1 << 64) - 1, 'usize')
+    ref = one_stream(zero, Int(1, 'usize'), zero, zero, maxu)
+    G0 = ref['G']                # global order in which the sources were pulled: position = global item index
+    names = ['s%d_%d' % g for g in G0]
+    ref_flat = [x for b_ in ref['batches'] for x in b_]
+    ctx.require(ref_flat == names and len(G0) == n and len(set(G0)) == n, 'the uninterrupted single-process stream yields every item once, in generator order')
+    ref_info = {nm: info for nm, info in ref['seen']}
+    ctx.require(ref['unseeded'] == 0, 'no randomness from an unseeded generator')
+    for sd in ref['seed_terms']:
+        ctx.require(term_vars(sd) <= {'seed', 'epoch'}, 'generator seeds depend only on seed and epoch')
+    all_streams = []
+    for rank, world in streams:
+        run_ = one_stream(rank, world, skip, ff, limit)
+        batches = run_['batches']
         if ctx.outputs is not None:
             ctx.outputs['stream%d' % len(all_streams)] = batches
-        G = list(m.c08_log)          # global order in which the sources were pulled: position = global item index
-        names = ['s%d_%d' % g for g in G]
-        flat = [x for b in batches for x in b]
+        ctx.require(run_['G'] == G0[:len(run_['G'])], 'the global item order does not depend on rank / world size / skip / limit / fast_forward')
+        flat = [x for b_ in batches for x in b_]
         ctx.require(all(x in names for x in flat) and len(set(flat)) == len(flat), 'every emitted item is a distinct item of the generator stream')
         L = [names.index(x) for x in flat]
         # (1) the stream is the arithmetic progression skip+ff+rank, +world, ... below min(limit, number of items)
@@ -190,31 +215,24 @@ def run(ctx, shape, opts):
             cond = z3.UGE(S, E)
         else:
             cs = [S == z3.BitVecVal(L[0], 68), z3.ULT(z3.BitVecVal(L[-1], 68), E), z3.UGE(z3.BitVecVal(L[-1], 68) + Wd, E)]
-            for a, b in zip(L, L[1:]):
-                cs.append(z3.BitVecVal(a, 68) + Wd == z3.BitVecVal(b, 68))
+            for a_, b_ in zip(L, L[1:]):
+                cs.append(z3.BitVecVal(a_, 68) + Wd == z3.BitVecVal(b_, 68))
             cond = z3.And(cs)
         ctx.require(cond, 'the rank stream is exactly the items skip+fast_forward+rank, +world_size, ... below min(limit, total) in order')
-        # (2) per-item info: seed = seed + epoch + global index, file_idx = source; identical whatever rank / world / fast_forward
-        ctx.require([s[0] for s in m.c08_seen] == flat, 'the pipeline sees exactly the emitted items, in order')
-        for (nm, info), gi in zip(m.c08_seen, L):
-            want = m.int_binop('Add', base_seed, Int(gi, 'u64'))
-            ctx.require(m.eq(info.get('seed'), want), 'item seed is seed + epoch + global item index')
-            ctx.require(m.eq(info.get('file_idx'), Int(G[gi][0], 'usize')), 'item carries the index of its source file')
+        # (2) every global item index is processed with the same info as in the uninterrupted stream
+        ctx.require([s_[0] for s_ in run_['seen']] == flat, 'the pipeline sees exactly the emitted items, in order')
+        for nm, info in run_['seen']:
+            want = ref_info[nm]
+            ctx.require(m.eq(info.get('seed'), want.get('seed')) and m.eq(info.get('file_idx'), want.get('file_idx')),
+                        'each global item index is processed with the same info (seed, file index) whatever the rank, world size, skip or fast-forward offset')
         # (3) batches
         bl = shape['batch_limit']
-        ctx.require(all(len(b) == bl for b in batches[:-1]) and all(0 < len(b) <= bl for b in batches), 'batches are full except the last, none empty')
-        # (4) all randomness of the run is derived from seed + epoch
-        ctx.require(ctx.unseeded_draws == 0, 'no randomness from an unseeded generator')
-        for sd in ctx.rng_seed_terms:
-            ctx.require(m.eq(sd, base_seed), 'generators of the run are seeded with seed + epoch')
-        # min_items as documented by the code: min(total, limit) - skip (saturating)
-        mi = loader.fields[18]
-        ctx.require(mi.variant == 'Some', 'min_items is set by __iter__')
+        ctx.require(all(len(b_) == bl for b_ in batches[:-1]) and all(0 < len(b_) <= bl for b_ in batches), 'batches are full except the last, none empty')
+        # (4) the randomness of the run is that of the reference run
+        ctx.require(run_['unseeded'] == 0, 'no randomness from an unseeded generator')
+        ctx.require(len(run_['seed_terms']) == len(ref['seed_terms']) and all(m.eq(x, y) is True or ctx.must(m.eq(x, y)) for x, y in zip(run_['seed_terms'], ref['seed_terms'])),
+                    'generators are seeded identically in every configuration')
         all_streams.append(L)
-        if G0 is None:
-            G0 = G
-        elif st != 'Weighted':
-            ctx.require(G == G0, 'the global item order does not depend on the rank')
     if shape['mode'] == 'world':
         flatall = [i for L in all_streams for i in L]
         ctx.require(len(set(flatall)) == len(flatall), 'the per-rank streams are disjoint')
@@ -241,7 +259,7 @@ def run_switch(ctx, shape, opts):
             calls.append((i, inp, info))
             return Ok(Tup([inp, info]))
         return BoxObj(PyFn(f, 'fn%d' % i))
-    probs = {2: [0.25, 0.75], 3: [0.5, 0.25, 0.25]}[k]
+    probs = SWITCH_PROBS[k]
     ctx.unseeded_draws = 0
     ctx.rng_seed_terms = []
     sw = m.call('utils::switch', VecObj([mk(i) for i in range(k)]), VecObj([FP(p, 'f64') for p in probs]))
@@ -255,10 +273,44 @@ def run_switch(ctx, shape, opts):
     ctx.require(ctx.unseeded_draws == 0, 'no randomness from an unseeded generator')
     ctx.require(len(ctx.rng_seed_terms) == 1, 'switch creates exactly one generator')
     for sd in ctx.rng_seed_terms:
-        ctx.require(m.eq(sd, seed), 'the switch generator is seeded with info.seed')
+        ctx.require(term_vars(sd) <= {'seed', 'file_idx'}, 'the switch generator is seeded from the item info only')
     if ctx.outputs is not None:
         ctx.outputs['ok'] = True
     ctx.sample = {'switch_fns': k, 'selected': i}
+
+
+def run_substring(ctx, shape, opts):
+    """the substring preprocessing: one generator seeded with info.seed selects the substring; info is passed through"""
+    m = ctx.m
+    seed = ctx.in_int('seed', 'u64')
+    mx = ctx.in_int('max', 'usize')
+    if ctx.concrete is None:
+        ctx.assume(z3.And(z3.UGE(mx.z(), 1), z3.ULE(mx.z(), 6)))
+    elif not 1 <= mx.v <= 6:
+        raise Infeasible()
+    ctx.unseeded_draws = 0
+    ctx.rng_seed_terms = []
+    cfg = mk_enum(m, 'PreprocessingFnConfig', shape['kind'], [mx, False])
+    pf = m.call('preprocessing', cfg)
+    item = Struct('TrainData', [m.new_string(shape['input']), m.new_string(shape['target'])], ['input', 'target'])
+    info = Struct('TextDataInfo', [seed, Int(1, 'usize'), MapObj('HashMap')], ['seed', 'file_idx', 'marks'])
+    r = m.call_value(pf, [item, info])
+    ctx.require(r.variant == 'Ok', 'substring preprocessing succeeds on texts that differ only in whitespace')
+    nitem, ninfo = r.fields[0].fields
+    got = m.peel(nitem).get('input').as_str().concrete()
+    tgt = m.peel(nitem).get('target').as_str().concrete()
+    if ctx.outputs is not None:
+        ctx.outputs['ok'] = True
+    ctx.require(got is not None and got in shape['input'] and len(got) >= 1, 'the new input is a non-empty substring of the input')
+    ctx.require(ctx.must(m.int_binop('Le', Int(len(got), 'usize'), mx)), 'the substring respects the length limit')
+    ctx.require(tgt is not None and tgt.replace(' ', '') == got.replace(' ', '') and tgt in shape['target'],
+                'the new target is the matching part of the target')
+    ctx.require(m.eq(m.peel(ninfo).get('seed'), seed) and m.eq(m.peel(ninfo).get('file_idx'), Int(1, 'usize')), 'info is passed through unchanged')
+    ctx.require(ctx.unseeded_draws == 0, 'no randomness from an unseeded generator')
+    ctx.require(len(ctx.rng_seed_terms) == 1, 'the substring preprocessing creates exactly one generator')
+    for sd in ctx.rng_seed_terms:
+        ctx.require(term_vars(sd) <= {'seed'}, 'the substring generator is seeded from the item info only')
+    ctx.sample = {'substring': got, 'target': tgt}
 
 
 # ------------------------------------------------------------------ native side
@@ -287,7 +339,7 @@ def _streams(shape, inputs):
 
 
 def native_outputs(native, shape, inputs):
-    if shape['part'] == 'switch':
+    if shape['part'] != 'loader':
         return {'ok': True}
     out = {}
     for i, (rank, world) in enumerate(_streams(shape, inputs)):
@@ -299,8 +351,27 @@ def native_outputs(native, shape, inputs):
 
 
 def concrete_check(native, inputs, shape):
-    if shape['part'] == 'switch':
-        return []
+    if shape['part'] != 'loader':
+        # native oracle for the seed discipline of the combinators: the same (item, info) processed repeatedly must give
+        # one result and hand the info through; which term seeds the generator is decided symbolically only
+        if shape['part'] == 'switch':
+            kw = dict(kind='switch', fns=shape['fns'], probs=SWITCH_PROBS[shape['fns']], input='x', target='x')
+        else:
+            kw = dict(kind=shape['kind'], max=str(inputs['max']), input=shape['input'], target=shape['target'])
+        failed = []
+        for sd, mx in [(inputs['seed'], inputs.get('max', 1))] + [(a, b) for a in range(4) for b in ((1, 2, 3) if shape['part'] == 'substring' else (1,))]:
+            if shape['part'] == 'substring':
+                kw['max'] = str(mx)
+            k, v = native_ok(native.call('preproc_repeat', seed=str(sd), n=24, _timeout=20.0, **kw))
+            if k != 'ok':
+                return ['no panic']
+            if len(v) != 1 and 'no randomness from an unseeded generator' not in failed:
+                failed.append('no randomness from an unseeded generator')
+            if any(('seed=%d file=1' % sd) not in o for o in v if not o.startswith('Err')):
+                failed.append('info is passed through unchanged' if shape['part'] == 'substring' else
+                              'the selected function receives the same info (seed, file index)')
+                break
+        return failed
     n = sum(shape['lengths'])
     failed = set()
     # reference: the uninterrupted single-process stream with the same seed and epoch (random preprocessing exposes the seeds)
@@ -339,7 +410,7 @@ def concrete_check(native, inputs, shape):
             if L != want:
                 failed.add('the rank stream is exactly the items skip+fast_forward+rank, +world_size, ... below min(limit, total) in order')
             if any(it != F[i] for it, i in zip(got, L)):
-                failed.add('item seed is seed + epoch + global item index')
+                failed.add('each global item index is processed with the same info (seed, file index) whatever the rank, world size, skip or fast-forward offset')
             bl = shape['batch_limit']
             bs = runs[0]
             if not (all(len(b) == bl for b in bs[:-1]) and all(0 < len(b) <= bl for b in bs)):
@@ -369,7 +440,8 @@ def _case(lengths, st, mode, world=None, **kw):
 
 FIXED_CASES = [_case([3], 'Sequential', 'single'), _case([2, 2], 'Interleaved', 'single', rank=1, world=2, skip=1),
                _case([3, 1], 'Sequential', 'world', 2, ff=1, has_limit=1, limit=3), _case([2, 1], 'Interleaved', 'world', 3, epoch=4),
-               ({'part': 'switch', 'fns': 2}, {'seed': 5, 'file_idx': 0})]
+               ({'part': 'switch', 'fns': 2}, {'seed': 5, 'file_idx': 0}),
+               ({'part': 'substring', 'kind': 'CharSubstring', 'input': 'ab c', 'target': 'ab c'}, {'seed': 5, 'max': 2})]
 
 
 def random_case(rng):
